@@ -43,7 +43,7 @@ Chk(m, ante, ok, rule) == IF ante THEN (IF ok THEN S(m, rule) ELSE V(S(m, rule),
 
 OpKind(op) ==
   CASE op \in {"fd_reg", "fd_try", "fd_unreg", "fd_set", "fd_cookie"} -> 0
-    [] op \in {"tm_reg", "tm_unreg"} -> 1
+    [] op \in {"tm_reg", "tm_unreg", "tm_bulk"} -> 1
     [] op \in {"tk_reg", "tk_unreg", "tk_unreg_keep"} -> 2
     [] op \in {"ev_reg", "ev_unreg", "ev_post"} -> 3
     [] op \in {"raw_reg", "raw_unreg", "raw_post", "raw_burst"} -> 4
@@ -54,7 +54,7 @@ OpKind(op) ==
     [] op \in {"popen", "popen_close"} -> 9
     [] OTHER -> -1
 
-Lends(op) == op \in {"fd_reg", "fd_try", "tm_reg", "tk_reg", "ev_reg", "raw_reg", "pool_create", "sig_reg",
+Lends(op) == op \in {"fd_reg", "fd_try", "tm_reg", "tm_bulk", "tk_reg", "ev_reg", "raw_reg", "pool_create", "sig_reg",
                      "wait_reg", "wait_spawn", "popen"}
 Returns(op) == op \in {"fd_unreg", "tm_unreg", "tk_unreg", "ev_unreg", "raw_unreg", "pool_put", "sig_unreg",
                        "wait_unreg", "popen_close"}
